@@ -360,7 +360,7 @@ class Gen:
         r = self.r
         if t[0] == 'int':
             if self.narrow:
-                return r.choice([0, 1, 2, 3])
+                return r.choice([0, 1, 2, 3, 4])
             return r.choice([0, 1, 1, 2, 2, 3, 4, 5])
         if t[0] == 'opt':
             return r.choice([None, None, 0, 1, 2, 3])
@@ -552,9 +552,14 @@ class Gen:
         if k == "unique":
             key = self.key(t)
             hsh = True
-            if r.random() < 0.25:
+            if r.random() < (0.5 if self.narrow else 0.25):
                 hsh = False
-            return {"k": "unique", "maxsize": r.choice([None, None, 1, 2, 3]), "key": key,
+            # focused cases: histories of 3-4 keys over a small alphabet, so that refreshes of entries in the middle of
+            # the history and the evictions that follow them are reached
+            ms = r.choice([None, 2, 3, 3, 3, 4]) if self.narrow else r.choice([None, None, 1, 2, 3])
+            if self.narrow and ms is not None and ms >= 3 and t[0] == 'int' and r.random() < 0.8:
+                key = ['KeyId']      # as many distinct keys as the alphabet has values: the history really fills up
+            return {"k": "unique", "maxsize": ms, "key": key,
                     "hashable": hsh, "ups": [u]}, t
         if k == "flatten":
             if t[0] not in ('tup', 'list'):
